@@ -191,6 +191,11 @@ def monitorProbed (script : List Cmd) (iters : List Iter) (d : Nat) (answersOnly
       if lostName then some s!"answers-under-the-name-it-lost-in-a-conflict {what}"
       else if staleSrv then some s!"re-targeted-SRV-answered-while-it-is-probed-again {what}"
       else if renamedName && probedBy asked p.t then some s!"record-missing-from-first-probe-after-rename {what}"
+      -- D47: a conflict about the host's address of ONE family renames the host; the address record
+      -- of the other family finishes the probe of the OLD name first, is renamed then and probed
+      -- again - while the service, announced meanwhile with the first family, answers with it
+      else if renamedName && (r.ty == 1 || r.ty == 28) then
+        some s!"renamed-host-address-answered-while-it-is-probed-again {what}"
       else if sameInst then some s!"answered-while-address-still-probing {what}"
       else if timeJump then some s!"announced-with-fewer-than-three-probes-late-iteration {what}"
       else if sharedHost then some s!"announced-with-fewer-than-three-probes-shared-probe {what}"
@@ -245,8 +250,11 @@ def monitorAnnounced (script : List Cmd) (iters : List Iter) (d : Nat) : Option 
     let hostKey (h : BList) : BList :=
       let dbl := [0x2E, 0x6C, 0x6F, 0x63, 0x61, 0x6C, 0x2E, 0x6C, 0x6F, 0x63, 0x61, 0x6C, 0x2E]
       if dbl.isSuffixOf h then h.take (h.length - 6) else h
-    if (regs.filter fun o => hostKey o.2.2.1 == hostKey host).length != 1 then none else
-    let tr := timeOf iters kr
+    -- ... it is bounded by the LAST registration that shares the host name: from then on nothing
+    -- joins any more, the probe of the host name runs its 750 ms and everybody waiting for it is
+    -- woken (the seeded change C07-sharing-service-not-on-waiting-list hid in the former exemption)
+    let sharing := regs.filter fun o => hostKey o.2.2.1 == hostKey host
+    let tr := (sharing.map fun o => timeOf iters o.1).foldl max (timeOf iters kr)
     -- usable: some address of the service lies in the subnet of some interface address
     let usable := auto || ips.any fun ipS =>
       match SimResponder.parseIp ipS with
@@ -258,7 +266,7 @@ def monitorAnnounced (script : List Cmd) (iters : List Iter) (d : Nat) : Option 
           | none => false
     let mine := announcementsOf iters pk full
     if usable && tr + 2000 ≤ tEnd && !(mine.any fun a => a.2.1 ≤ tr + 2000) then
-      some s!"registration-not-announced-within-two-seconds inst={hexOfBytes full} registered-at={tr}"
+      some s!"registration-not-announced-within-two-seconds inst={hexOfBytes full} registered-at={timeOf iters kr} last-sharing-registration-at={tr}"
     else
       -- the first announcement is repeated one second later (the second token of the event
       -- names the interface differently in the two announcements: not used as a key)
